@@ -94,6 +94,8 @@ CONVERTERS = {
     'wrapping': lambda s: f'# begin {s.name}\n{s.code}\n# end {s.name}',
     'multi-line': lambda s: 'if True:\n    ' + s.code.replace('\n', '\n    ') + '\nelse:\n    pass',
     # inserted code that behaves differently if the build route compiles with other options (assert / __debug__)
+    # inserted code containing braces, percent signs and backslashes (dict / set literals, an f-string, a %-format): inserted as is
+    'braces': lambda s: s.code + "\n_k = {'k': 1.5, 'j': {2, 3}}['k'] * len(f'{t:03d}{{}}') + len('%d%%' % t) + len('a\\b')",
     'guarded': lambda s: s.code + '\nassert t < 0, "guard"',
     'debug-dependent': lambda s: s.code + '\nif __debug__:\n    self._status[t] = "Q"',
 }
@@ -220,6 +222,7 @@ def run_shard(ctx):
     all_settings = [{}, {'lags': 0}, {'lags': 2, 'leads': 1}, {'min_lags': 3}, {'min_leads': 2, 'lags': 1}, {'leads': 0, 'min_lags': 1},
                     {'min_lags': -2}, {'min_leads': -1, 'min_lags': np.int64(0)}]      # a minimum below zero is no minimum at all
     fixed = ['`self._Y[t] = self._Y[t] * 2`\n`self._Y[t] = self._Y[t] * 2`\nY = X', 'Y = X\n```\nself._Y[t] = self._Y[t] + 1\n```\n```\nself._Y[t] = self._Y[t] + 1\n```',
+             'Y = X\n```\nself._Y[t] = {"a": 2.0, "b": 3.0}["a"] * self._Y[t] + len(f"{t}{{x}}") + len({1, 2})\n```',
              'Y = X\n```\nassert self._X[t] < 0.0, "X must be negative"\n```', 'Y = X\n```\nif __debug__:\n    self._Y[t] = self._Y[t] + 1\n```',
              '', '# only a comment\n', '```\npass\n```', '`x = 1`', '```\nself._Y[t] = 2.0\n```\nY = Y', 'Y = X', 'Y = 1\nZ = Y[-1] + {a} * <e>[1]']
     for i, script in enumerate(fixed):
